@@ -9,6 +9,11 @@ and consistency proofs, and a reference pre-ordered backend; code->spec: traces 
 validated by MigrillianTrace.tla with all invariants on, every request and the final destination are
 judged index by index by reference code; spec->code: TLC behaviours drive the fakes as counted fault
 schedules and the outcomes are compared.
+get-entries pages are a fault dimension of their own: short reads of every length and the empty page (200 with
+zero entries, spelled [] / null / absent) at any request, repeated, on the remainder of a short read; the reference
+destination refuses a request without leaves as Trillian does.  Invariant PosCovered (a pass reported successful
+leaves no hole below the position it hands to the next pass) is checked exhaustively on the model and, on traces,
+as Complete (Return nil) / NoGap (GetRoot of the next pass) behind the defect step AbandonRanges.
 """
 import json
 import os
@@ -69,7 +74,8 @@ def run(ctx, replay=None):
         return
     # 1. exhaustive safety + liveness of the specification
     #    (VERIF_C20_SKIP_MC=1: development aid for mutation runs, the specification does not depend on the code)
-    for cfg in [] if os.environ.get("VERIF_C20_SKIP_MC") == "1" else ctx.pick(["MigrillianWide.cfg", "MigrillianGrow.cfg", "MigrillianDeep.cfg"], ["Migrillian.cfg", "MigrillianDeep6.cfg", "MigrillianWide2.cfg", "MigrillianDeep2.cfg"]):
+    for cfg in [] if os.environ.get("VERIF_C20_SKIP_MC") == "1" else ctx.pick(["MigrillianWide.cfg", "MigrillianGrow.cfg", "MigrillianDeep.cfg", "MigrillianPages.cfg"],
+                                                                                   ["Migrillian.cfg", "MigrillianDeep6.cfg", "MigrillianWide2.cfg", "MigrillianDeep2.cfg", "MigrillianPagesGrow.cfg"]):
         ctx.tlc("migrate", "MCMigrillian", cfg, workers=WORKERS, timeout=5400)
     if os.environ.get("VERIF_C20_SKIP_MC") != "1":
         ctx.tlc("migrate", "MCMigrillian", ctx.pick("MigrillianLiveSmall.cfg", "MigrillianLive.cfg"), workers=WORKERS, timeout=5400)
